@@ -35,6 +35,25 @@ func IntSlice(max int) *rapid.Generator[[]int] {
 	return rapid.SliceOfN(TinyInt(), 0, max)
 }
 
+// IntSliceWide is IntSlice for inputs whose length the code under test does not bound: 0..max most of the time,
+// but one case in six has 9..40 elements and one in twelve 41..300 (a threshold inside an implementation - a
+// chunk size, a switch to another algorithm - is only crossed by inputs longer than any "small" bound).
+func IntSliceWide(max int) *rapid.Generator[[]int] {
+	return rapid.Custom(func(t *rapid.T) []int {
+		lo, hi := 0, max
+		switch rapid.IntRange(0, 11).Draw(t, "sizeClass") {
+		case 0, 1:
+			lo, hi = 9, 40
+		case 2:
+			lo, hi = 41, 300
+		}
+		if hi < max {
+			lo, hi = 0, max
+		}
+		return rapid.SliceOfN(TinyInt(), lo, hi).Draw(t, "elems")
+	})
+}
+
 // Sentinel errors, compared by identity (errors.Is).
 var Errs = []error{errors.New("errE0"), errors.New("errE1"), errors.New("errE2"), errors.New("errE3"), errors.New("errE4"), errors.New("errE5"), errors.New("errE6"), errors.New("errE7"), errors.New("errE8"), errors.New("errE9")}
 
